@@ -750,15 +750,21 @@ impl<S: Sample> RenderedImage<S> {
         #[cfg(jxl_oxide_verif)]
         let _probe =
             crate::verif::probe_scope(self.image.frame.idx, crate::verif::ProbeKind::Blend);
-        composite(
+        let composite_result = composite(
             &self.image.frame,
             &mut grid,
             self.image.refs.clone(),
             oriented_image_region,
             pool,
-        )?;
+        );
         #[cfg(jxl_oxide_verif)]
         drop(_probe);
+        if let Err(e) = composite_result {
+            // Don't leave the handle in `Rendering`: nobody would ever finish it, and every later
+            // render of this frame would wait forever.
+            drop(self.image.done_render(FrameRender::ErrTaken));
+            return Err(e);
+        }
 
         let image = Arc::new(grid);
         drop(
